@@ -269,3 +269,120 @@ class RelModel:
         return tuple(
             (side, n, render(v)) for side in ("P", "C") for n, v in sorted(self.val[side].items())
         )
+
+
+# ------------------------------------------------------------------ C36 history model
+
+UNKNOWN = "<unknown>"  # committed value not known at the first mutation
+ABSENT = "<absent>"  # no committed value at all (new object / never set)
+
+
+class AttrHist:
+    """one attribute between two flushes: committed value (as far as the
+    mapper can know it) and current value -> the net change.
+
+    kind: "col" (compared with ==, None is a value), "ref" (compared by
+    identity, None is "no object"), "coll" (membership by identity)."""
+
+    def __init__(self, kind, row=None, loaded=False, cur=None, absent=False):
+        self.kind = kind
+        self.row = row  # value in the database as of this transaction
+        self.loaded = loaded
+        self.cur = cur
+        self.absent = absent  # no value in memory although not expired (del / never set)
+        self.dirty = False
+        self.orig = None
+
+    def copy(self):
+        return copy.deepcopy(self)
+
+    def first_mutation(self, orig):
+        if not self.dirty:
+            self.dirty = True
+            self.orig = orig
+
+    def reset(self):
+        self.dirty = False
+        self.orig = None
+
+    def effective(self):
+        """the value a flush has to persist"""
+        if self.kind == "coll":
+            return members(self.cur) if self.loaded else None
+        return None if self.absent else self.cur
+
+    def changed(self):
+        """does the net change differ from nothing (as far as knowable)"""
+        if not self.dirty:
+            return False
+        if self.orig in (UNKNOWN, ABSENT):
+            return True
+        if self.kind == "coll":
+            return sorted(members(self.cur)) != sorted(self.orig)
+        return self.absent or self.cur != self.orig
+
+    def check(self, h):
+        """h = (added, unchanged, deleted) as tuples of names/values.  returns
+        a problem text or None.  This *is* the property: unchanged + added =
+        current; unchanged + deleted = committed (when it was known); a value
+        set back to the committed one is no change; unknown committed value
+        -> deleted empty."""
+        added, unchanged, deleted = (tuple(x) for x in h)
+        if self.kind == "coll":
+            return self._check_coll(added, unchanged, deleted)
+        if not self.dirty:
+            exp = ((), (self.cur,), ()) if self.loaded and not self.absent else ((), (), ())
+            if (added, unchanged, deleted) != exp and not (exp == ((), (None,), ()) and (added, unchanged, deleted) == ((), (), ())):
+                # (None and "no value" are the same committed state)
+                return "unmodified attribute reports %r, expected %r" % ((added, unchanged, deleted), exp)
+            return None
+        known = self.orig not in (UNKNOWN, ABSENT)
+        if known and not self.absent and self.cur == self.orig:
+            if (added, unchanged, deleted) != ((), (self.cur,), ()):
+                return "set back to the committed value %r but history is %r" % (self.orig, (added, unchanged, deleted))
+            return None
+        if not known and not self.absent and self.cur is None and (added, unchanged, deleted) == ((), (None,), ()):
+            return None  # no committed value -> None: not a change either
+        if unchanged != ():
+            return "changed attribute reports unchanged=%r" % (unchanged,)
+        if self.absent:
+            if added not in ((), (None,)):
+                return "deleted attribute reports added=%r" % (added,)
+        elif added != (self.cur,):
+            return "added=%r, current value is %r" % (added, self.cur)
+        if known:
+            ok = deleted == (self.orig,) or (self.orig is None and deleted == ())
+            if self.kind == "ref" and self.orig is None:
+                ok = deleted == ()
+            if not ok:
+                return "deleted=%r, committed value was %r" % (deleted, self.orig)
+        elif deleted != ():
+            return "deleted=%r although the committed value was not known" % (deleted,)
+        if set(added) & set(deleted) - {None}:
+            return "added and deleted overlap: %r" % ((added, deleted),)
+        return None
+
+    def _check_coll(self, added, unchanged, deleted):
+        if not self.loaded:
+            if (added, unchanged, deleted) != ((), (), ()):
+                return "unloaded collection reports %r" % ((added, unchanged, deleted),)
+            return None
+        cur = members(self.cur)
+        if sorted(added + unchanged) != sorted(cur):
+            return "added+unchanged = %r, current members %r" % (sorted(added + unchanged), sorted(cur))
+        if not self.dirty:
+            if added or deleted:
+                return "unmodified collection reports added=%r deleted=%r" % (added, deleted)
+            return None
+        if self.orig == ABSENT:
+            if unchanged or deleted:
+                return "new collection reports unchanged=%r deleted=%r" % (unchanged, deleted)
+            return None
+        orig = list(self.orig)
+        if sorted(set(unchanged + deleted)) != sorted(set(orig)):
+            return "unchanged+deleted = %r, committed members %r" % (sorted(unchanged + deleted), sorted(orig))
+        if set(added) & set(deleted):
+            return "added and deleted overlap: %r" % ((added, deleted),)
+        if set(added) & set(orig):
+            return "added=%r contains committed members %r" % (added, orig)
+        return None
